@@ -1,6 +1,7 @@
 package workloads
 
 import (
+	"math/big"
 	"math/rand"
 
 	"verifharness/kit"
@@ -108,6 +109,41 @@ func BtcGov(r *kit.Run, rng *rand.Rand, pal *Palette) {
 	setParam(1, 12, 4000, all[:m-1])
 	setParam(1, 12, 4000, all[m-1:])
 	setParam(1, 12, 4000, all[:1]) // signatures already enough
+	// the same key signs twice with two different valid encodings (a signature and its (r, N-s) twin),
+	// in both orders and mixed with other signers: which of the two ends up in the stored tally must
+	// not depend on anything but the transaction
+	twin := func(hash []byte, i int) [][]byte {
+		sg, err := privs[i].Sign(hash)
+		if err != nil {
+			return nil
+		}
+		// Signature.Serialize canonicalises S, which would undo the twin: encode DER by hand
+		return [][]byte{sg.Serialize(), derSig(sg.R, new(big.Int).Sub(btcec.S256().N, sg.S))}
+	}
+	for k := 0; k < 8; k++ {
+		target := t2 + 10 + uint64(k)
+		contract := pal.Blob(rng, 20)
+		p := &scm.RegisterRedeemParam{RedeemChainID: redeemChain, ContractChainID: target, Redeem: redeem, CVersion: 0, ContractAddress: contract}
+		msg := append([]byte{}, redeem...)
+		msg = append(msg, utils.GetUint64Bytes(p.RedeemChainID)...)
+		msg = append(msg, p.ContractAddress...)
+		msg = append(msg, utils.GetUint64Bytes(p.ContractChainID)...)
+		msg = append(msg, utils.GetUint64Bytes(p.CVersion)...)
+		h := btcutil.Hash160(msg)
+		var sigs [][]byte
+		for _, i := range all[:1+k%m] {
+			tw := twin(h, i)
+			if k%2 == 1 && len(tw) == 2 {
+				tw[0], tw[1] = tw[1], tw[0]
+			}
+			sigs = append(sigs, tw...)
+		}
+		p.Signs = sigs
+		sink := common.NewZeroCopySink(nil)
+		p.Serialization(sink)
+		call("registerRedeem", sink.Bytes())
+		r.Count("btcgov_same_key_signs_twice", 1)
+	}
 	// two DIFFERENT requests whose signature tallies are addressed by the same bytes: the tally key of
 	// setBtcTxParam is rk ‖ chain ‖ varuint(ver) ‖ varuint(fee) ‖ varuint(minChange), that of
 	// registerRedeem rk ‖ chain ‖ contract address ‖ target chain id. With a min-change >= 2^32 the
@@ -126,4 +162,21 @@ func BtcGov(r *kit.Run, rng *rand.Rand, pal *Palette) {
 		Track(r, rec.Ok, "btcgov:"+rec.Method, len(rec.WriteSet), len(rec.Notify))
 	}
 	r.Count("router_workload:btcgov", 1)
+}
+
+func derInt(v *big.Int) []byte {
+	b := v.Bytes()
+	if len(b) == 0 {
+		b = []byte{0}
+	}
+	if b[0]&0x80 != 0 {
+		b = append([]byte{0}, b...)
+	}
+	return append([]byte{0x02, byte(len(b))}, b...)
+}
+
+// derSig is the DER encoding of (r, s) without any canonicalisation of s.
+func derSig(r, s *big.Int) []byte {
+	body := append(derInt(r), derInt(s)...)
+	return append([]byte{0x30, byte(len(body))}, body...)
 }
